@@ -38,6 +38,15 @@ from sigtools import _util, _specifiers, _signatures
 __all__ = ['annotate', 'kwoargs', 'autokwoargs', 'posoargs']
 
 
+def _consumed_by_binding(unbound, bound):
+    try:
+        before = _specifiers.forged_signature(unbound, auto=False).parameters
+        after = _specifiers.forged_signature(bound, auto=False).parameters
+    except (TypeError, ValueError):
+        return set()
+    return set(before) - set(after)
+
+
 class _PokTranslator(_util.OverrideableDataDesc):
     __slots__ = ['__self__', 'func', 'posoarg_names', 'kwoarg_names', 'kwopos', '__signature__']
 
@@ -63,6 +72,11 @@ class _PokTranslator(_util.OverrideableDataDesc):
         self.func = func
         self.posoarg_names = set(posoargs)
         self.kwoarg_names = set(kwoargs)
+        original = kwargs.get('original')
+        if isinstance(original, _PokTranslator):
+            # re-created for a bound version of original.func: parameters
+            # consumed by the binding (self) are no longer there to convert
+            self.posoarg_names -= _consumed_by_binding(original.func, func)
         if isinstance(func, _PokTranslator):
             self._merge_other(func)
         self._prepare()
